@@ -3,49 +3,26 @@
   hand-written `MapFut.resolve`: same outcome, same calls of the user functions in the same order, and no exception escapes
   from `_delegate_resolved` (neither from the first call nor from the call made for the flattened future).
 -/
-import MoreExec.Gen.K15
-import MoreExec.Model.PyMap
+import MoreExec.Proofs.MapFut.K15A
+import MoreExec.Proofs.MapFut.K15B
+import MoreExec.Proofs.MapFut.K15C
+import MoreExec.Proofs.MapFut.K15D
 
 namespace MoreExec.PyMap
 open MoreExec.MapFut MoreExec.Gen
 
-/-- what the constructor stores in `_map_fn` -/
-def slotOf (c : Cfg) : FnSlot :=
-  match c.fn with
-  | some f => .user f
-  | none => if c.flat then K15.flatDefault else K15.mapDefault
-
-def progOf (c : Cfg) : Stmt := if c.flat then K15.resolvedFlat else K15.resolvedMap
-
-/-- the code, run on a configuration: final state of `self`, and whether an exception escaped -/
-def runCode (c : Cfg) (d : Outcome) : S × Bool := run (progOf c) (slotOf c) c.errFn d
-
-/-- unfold the interpreter on the generated programs -/
-macro "k15_simp" h:ident : tactic =>
-  `(tactic| simp [runCode, run, progOf, slotOf, K15.resolvedFlat, K15.resolvedMap, K15.mapDefault, K15.flatDefault, start, exec, evalE,
-      callSlot, fnResult, $h:ident, S.set, setOut, truthy, toRes, toOut, valOut, excOut, resolve, onMapped, flattened])
-
-set_option maxHeartbeats 1600000 in
-theorem run_eq_resolve (c : Cfg) (d : Outcome) :
-    toRes (runCode c d).1 = some (resolve c d) ∧ (runCode c d).2 = false := by
+theorem run_eq_resolve (c : Cfg) (sync : Bool) (d : Outcome) :
+    toRes (runCode c sync d).1 = some (resolve c d) ∧ (runCode c sync d).2 = false := by
   obtain ⟨flat, fn, errFn⟩ := c
   cases d with
-  | cancelled => cases flat <;> cases fn <;> cases errFn <;> exact ⟨rfl, rfl⟩
+  | cancelled => cases sync <;> cases flat <;> cases fn <;> cases errFn <;> exact ⟨rfl, rfl⟩
   | ok v =>
       cases fn with
-      | none => cases flat <;> cases errFn <;> exact ⟨rfl, rfl⟩
-      | some f =>
-          cases flat <;> cases errFn <;>
-            (cases h : f v with
-             | retFut o => cases o <;> k15_simp h
-             | _ => k15_simp h)
+      | none => cases sync <;> cases flat <;> cases errFn <;> exact ⟨rfl, rfl⟩
+      | some f => cases sync; exact run_ok_async flat f errFn v; exact run_ok_sync flat f errFn v
   | err e =>
       cases errFn with
-      | none => cases flat <;> cases fn <;> exact ⟨rfl, rfl⟩
-      | some ef =>
-          cases flat <;> cases fn <;>
-            (cases h : ef e with
-             | retFut o => cases o <;> k15_simp h
-             | _ => k15_simp h)
+      | none => cases sync <;> cases flat <;> cases fn <;> exact ⟨rfl, rfl⟩
+      | some ef => cases sync; exact run_err_async flat fn ef e; exact run_err_sync flat fn ef e
 
 end MoreExec.PyMap
